@@ -177,7 +177,7 @@ func VerifC13Reset() {
 	probe := gProbe("probe")
 
 	// round 1 ends in: an authorization (any outcome), a query, or a run-limit error
-	r1 := vChoose("round1", 3)
+	r1 := vChoose("round1", 4)
 	opts := gPatient
 	if r1 == 2 {
 		// a tight fact limit that round 1 exceeds and round 2 does not
@@ -187,8 +187,25 @@ func VerifC13Reset() {
 	if err != nil {
 		return
 	}
-	gLoad(a, z1)
+	if r1 == 3 {
+		// round 1 arrives as a snapshot
+		vLabel("round1=load-policies+authorize")
+		src, serr := NewVerifier(g.tok, opts)
+		if serr != nil {
+			return
+		}
+		gLoad(src, z1)
+		data, derr := src.SerializePolicies()
+		if derr != nil {
+			return
+		}
+		vAssert(a.LoadPolicies(data) == nil, "C13.round1-load")
+		a.Authorize()
+	} else {
+		gLoad(a, z1)
+	}
 	switch r1 {
+	case 3:
 	case 0:
 		vLabel("round1=authorize")
 		c1 := gClass(a.Authorize())
@@ -205,8 +222,23 @@ func VerifC13Reset() {
 		vAssert(lerr != nil, "C13.round1-limit")
 	}
 	a.Reset()
-	// round 2 on the reused authorizer
-	gLoad(a, z2)
+	// round 2 on the reused authorizer (through a snapshot made by an unrelated authorizer when round 1
+	// came as a snapshot: its symbol indexes assume a clean base table)
+	var snap2 []byte
+	if r1 == 3 {
+		src2, serr := NewVerifier(g.tok, opts)
+		if serr != nil {
+			return
+		}
+		gLoad(src2, z2)
+		snap2, serr = src2.SerializePolicies()
+		if serr != nil {
+			return
+		}
+		vAssert(a.LoadPolicies(snap2) == nil, "C13.round2-load")
+	} else {
+		gLoad(a, z2)
+	}
 	var reused gRun
 	reused.class = gClass(a.Authorize())
 	fs, qerr := a.Query(probe)
@@ -216,7 +248,11 @@ func VerifC13Reset() {
 	if err != nil {
 		return
 	}
-	gLoad(fa, z2)
+	if r1 == 3 {
+		vAssert(fa.LoadPolicies(snap2) == nil, "C13.fresh-load")
+	} else {
+		gLoad(fa, z2)
+	}
 	var fresh gRun
 	fresh.class = gClass(fa.Authorize())
 	ffs, fqerr := fa.Query(probe)
